@@ -146,6 +146,11 @@ func c11Judge(res *engine.Result, in []byte, class int, id byte, p *ref.PES, dat
 		res.Failf(pre+"DataAligned", "stream id %#x flag byte %#x: DataAligned()=%v", id, in[6], got)
 	}
 	wantPTS, wantDTS := p.PTSDTS&2 != 0, p.PTSDTS == 3
+	if (len(in)+int(id))%2 == 1 {
+		// getters in either order: half of the headers are asked for the DTS first
+		_ = h.DTS()
+		_ = h.HasDTS()
+	}
 	if got := h.HasPTS(); got != wantPTS {
 		res.Failf(pre+"HasPTS", "stream id %#x PTS_DTS_flags %02b: HasPTS()=%v", id, p.PTSDTS, got)
 	}
